@@ -95,7 +95,14 @@ func check(s Spec) h.Result {
 	if err != nil {
 		return h.Result{Fail: fmt.Sprintf("signature written at diff time cannot be read back: %v", err), Classes: cl}
 	}
-	c, hs, err := h.Sign(nd)
+	var swrap func(lake.Pool) lake.Pool
+	if len(s.Jitter) > 1 && s.Jitter[1]&1 == 1 {
+		// the stand-alone producer also reads through short-reading (and possibly data-with-EOF) readers
+		cl = append(cl, "producer:stand-alone-with-short-reads")
+		j2 := h.NewJitter(s.Jitter, 3)
+		swrap = func(p lake.Pool) lake.Pool { return &h.JitterPool{Pool: p, J: j2} }
+	}
+	c, hs, err := h.SignWith(nd, swrap)
 	if err != nil {
 		return h.Failf("stand-alone signing failed: %v", err)
 	}
